@@ -159,6 +159,45 @@ Theorem C18_rpc_null_without_replacement_refuted :
   (forall t, handle_session_nofix t [DocSingle ENull] = RpcPanic).
 Proof. split; [exact nofix_null_panics | exact nofix_single_null_panics]. Qed.
 
+(* ---- "oversized requests produce error responses (and the request size is bounded)": the size gate in front of the
+   decoder (RpcMsg.v: http.go validateRequest + the LimitReader of newHTTPServerConn, websocket.go SetReadLimit), for every
+   length of the document (need = bytes up to the end of its first JSON value), every number of bytes sent, every declared
+   length and every cutting into frames; compared with the real server on every run (TieC18.size_gate) on requests of
+   limit-1 .. 2 x limit bytes in every framing, where "decoded" is observed on the side effect of the called method. *)
+(* a document is decoded (and so can run) only if it ends within the bound AND within what is sent AND within what is
+   declared; a declared length above the bound is refused whatever is sent; over websocket whatever the frames are *)
+Theorem C18_size_gate_bounds_what_is_decoded :
+  (forall need n f, http_gate http_body_limit need n f = GDecoded ->
+     need <= http_body_limit /\ need <= n /\ (forall d, f = FDeclared d -> d <= http_body_limit /\ need <= d)) /\
+  (forall need n d, http_body_limit < d -> http_gate http_body_limit need n (FDeclared d) = GRefused) /\
+  (forall need frames, ws_gate ws_message_limit need frames = GDecoded -> need <= ws_message_limit).
+Proof.
+  split; [intros need n f; apply http_gate_decoded_bounded|].
+  split; [intros need n d; apply http_gate_declared_too_large_refused | intros need frames; apply ws_gate_decoded_bounded].
+Qed.
+(* the clause: an oversized document is never decoded, in no framing *)
+Theorem C18_size_gate_oversized_never_decoded :
+  (forall need n f, http_body_limit < need -> http_gate http_body_limit need n f <> GDecoded) /\
+  (forall need frames, ws_message_limit < need -> ws_gate ws_message_limit need frames <> GDecoded).
+Proof.
+  split; [intros need n f; apply http_gate_oversized_never_decoded|].
+  intros need frames Hl H. apply ws_gate_decoded_bounded in H. lia.
+Qed.
+(* requests within the bound get the same decision in every honest framing: with or without a declared length, and
+   however a websocket message is cut into frames; a complete document is decoded *)
+Theorem C18_size_gate_within_limit_framing_independent :
+  (forall need n, n <= http_body_limit ->
+     http_gate http_body_limit need n (FDeclared n) = http_gate http_body_limit need n FUndeclared /\
+     (need <= n -> http_gate http_body_limit need n FUndeclared = GDecoded)) /\
+  (forall need frames, (forall f, In f frames -> 0 <= f) -> 0 < need <= zsum frames -> zsum frames <= ws_message_limit ->
+     ws_gate ws_message_limit need frames = GDecoded).
+Proof. split; [intros need n; apply http_gate_framing_independent | intros need frames; apply ws_gate_within_limit]. Qed.
+(* what the reader in front of the decoder is for: the check of the declared length alone lets a document of any length
+   through when no length is declared (chunked transfer encoding) *)
+Theorem C18_size_gate_without_body_reader_refuted :
+  exists need n, http_body_limit < need /\ http_gate_unlimited_body http_body_limit need n FUndeclared = GDecoded.
+Proof. exact http_gate_unlimited_body_refuted. Qed.
+
 (* ---- "A block returned as JSON and fed back parses to the same block with the same hash": the text form of every
    scalar field (JsonText.v: what MarshalJSON prints, what UnmarshalJSON of nom.AccountBlock / api.AccountBlock takes),
    compared with the real marshaller / unmarshaller field by field on every run. For every field: print then parse is the
@@ -257,6 +296,12 @@ Example C18_rpc_example :
                           DocSyntax; DocSingle ENull]
   = Replies [(true, [(1, kind_ran); (0, code_invalid_request); (0, code_invalid_request); (0, code_invalid_request)]);
              (false, [(0, code_parse)])].
+Proof. vm_compute. reflexivity. Qed.
+Example C18_size_gate_example :
+  map size_gate [GHttp 5242880 5242880 (FDeclared 5242880); GHttp 5242881 5242881 (FDeclared 5242881); GHttp 5242881 5242881 FUndeclared;
+                 GHttp 90 5242881 FUndeclared; GHttp 90 90 (FDeclared 50); GHttp 90 90 (FDeclared 0); GHttp 90 90 (FDeclared 6000000);
+                 GWs 15728640 [15728640]; GWs 15728641 [15728641]; GWs 15728641 [7; 15728000; 634]; GWs 90 [100; 15728640]]
+  = [GDecoded; GRefused; GNoDocument; GDecoded; GNoDocument; GNoDocument; GRefused; GDecoded; GRefused; GRefused; GDecoded].
 Proof. vm_compute. reflexivity. Qed.
 Example C18_pages_example : map (fun i => page [10;11;12;13;14;15;16] i 3) [0;1;2;3;4294967295] = [[10;11;12];[13;14;15];[16];[];[]].
 Proof. vm_compute. reflexivity. Qed.
